@@ -425,6 +425,32 @@ func (r *TypeReg) declHeap() string {
 	return b.String()
 }
 
+// declDeref emits deref.<Sort> functions: the value a pointer to a location of that sort denotes
+// (a heap-allocated cell, or a field inside an object).
+func (r *TypeReg) declDeref() string {
+	var b strings.Builder
+	for _, n := range r.compOrd {
+		if !strings.HasPrefix(n, "Box.") {
+			continue
+		}
+		srt := strings.TrimPrefix(n, "Box.")
+		t := fmt.Sprintf("(select (h.%s h) p)", n)
+		for _, c := range r.compOrd {
+			cc := r.comps[c]
+			if cc.Ghost || cc.Sort != "(Array Int "+srt+")" {
+				continue
+			}
+			fid, ok := r.fidByComp[c]
+			if !ok {
+				continue
+			}
+			t = fmt.Sprintf("(ite (and (< p 0) (= (inner.k p) %d)) (select (h.%s h) (inner.p p)) %s)", fid, c, t)
+		}
+		fmt.Fprintf(&b, "(define-fun deref.%s ((h Heap) (p Int)) %s %s)\n", srt, srt, t)
+	}
+	return b.String()
+}
+
 func (r *TypeReg) declTids() string {
 	var b strings.Builder
 	for _, k := range r.tidOrd {
